@@ -766,14 +766,20 @@ impl Fiber {
   pub fn print_error(&self, log: &mut dyn Write, error: Instance) {
     writeln!(log, "Traceback (most recent call last):").expect("Unable to write to stderr");
 
-    for frame in self.frames.iter().rev() {
+    for (index, frame) in self.frames.iter().rev().enumerate() {
       let fun = frame.fun();
       let location: String = match &*fun.name() {
         SCRIPT => SCRIPT.to_owned(),
         _ => format!("{}()", &*fun.name()),
       };
 
-      let offset = unsafe { frame.ip().offset_from(fun.chunk().instructions().as_ptr()) } as usize;
+      // a frame that was searched for a handler had its ip moved to that handler: report
+      // the ip it had when the error passed through it, which pause_unwind saved
+      let ip = match self.backtrace_ips.get(index) {
+        Some(ip) => *ip,
+        None => frame.ip(),
+      };
+      let offset = unsafe { ip.offset_from(fun.chunk().instructions().as_ptr()) } as usize;
       writeln!(
         log,
         "  {}:{} in {}",
